@@ -9,8 +9,12 @@
      (ii) the multi-body functions / keyed rules of the framework packages (Model/Framework.v,
           Model/Location.v) never contribute two different values, i.e. the framework layer itself cannot
           raise OPA's eval_conflict_error; where that needs a property of the input (one package-scoped link
-          per metadata chain, no `related_resources: false`, one comment per row) the premise is explicit and
-          the unconditional statement is refuted by a witness.
+          per metadata chain, no `related_resources: false`, one comment per row, no import alias that is the
+          value false) the premise is explicit and the unconditional statement is refuted by a witness.
+          This includes the rules that map SEVERAL source constructs to ONE value on modules the parser accepts
+          and the compiler would refuse (two imports under one identifier, functions of one name with different
+          arities): resolved_imports and function_decls pick the first candidate per key and are conflict free
+          for every input; the "1:1" form of resolved_imports is refuted by two shadowing imports.
    NOT proved: that none of the ~90 Rego rule BODIES (and OPA itself, and roast's transform) errors, panics
    or hangs on a parseable module.  That remainder is exercised by linting corpora with all rules enabled
    (tools/props/c03.py) — testing, not proof. *)
@@ -107,7 +111,16 @@ Theorem c03_framework_conflict_free :
   (* main.rego *)
   (forall filename root, conflict_free (file_name_relative_to_root filename root)) /\
   (* ast/comments.rego: ignore_directives[row] *)
-  (forall comments, NoDup (map fst comments) -> keyed_conflict_free (directive_entries comments)).
+  (forall comments, NoDup (map fst comments) -> keyed_conflict_free (directive_entries comments)) /\
+  (* ast/imports.rego: _imported_identifier (two bodies), resolved_imports[identifier] := paths[0] — for ANY list
+     of imports, in particular several imports under one identifier (parseable, not compilable) *)
+  (forall i, imp_alias i <> Some (JBool false) -> conflict_free (imported_identifier i)) /\
+  (forall imports,
+     (forall i, In i imports -> imp_alias i <> Some (JBool false)) ->
+     (forall i, In i imports -> conflict_free (imported_identifier i)) /\
+     keyed_conflict_free (resolved_imports imports)) /\
+  (* ast/ast.rego: function_decls(rules) — for ANY list of rules, in particular one name with several arities *)
+  (forall rules, keyed_conflict_free (function_decls rules)).
 Proof.
   repeat split.
   - exact category_title_from_path_conflict_free.
@@ -121,6 +134,10 @@ Proof.
   - exact to_array_conflict_free.
   - exact file_name_relative_to_root_conflict_free.
   - exact ignore_directives_conflict_free.
+  - exact imported_identifier_conflict_free.
+  - intros i Hi. apply imported_identifier_conflict_free. apply H. exact Hi.
+  - apply resolved_imports_conflict_free.
+  - exact function_decls_conflict_free.
 Qed.
 Print Assumptions c03_framework_conflict_free.
 
@@ -143,6 +160,33 @@ Theorem c03_ignore_directives_same_row_refuted :
 Proof. exact ignore_directives_same_row_refuted. Qed.
 Print Assumptions c03_ignore_directives_same_row_refuted.
 
+(* the alias premise is needed (the parser only produces variable names as aliases) *)
+Theorem c03_imported_identifier_false_alias_refuted :
+  exists i, ~ conflict_free (imported_identifier i).
+Proof. exact imported_identifier_false_alias_refuted. Qed.
+Print Assumptions c03_imported_identifier_false_alias_refuted.
+
+(* why resolved_imports must SELECT: its "1:1" form (one entry per import, what the comment in imports.rego
+   proposes as a simplification) is conflict free exactly when imports sharing an identifier share the path … *)
+Theorem c03_resolved_imports_one_to_one_needs_distinct_identifiers :
+  forall imports,
+    (forall i j id, In i imports -> In j imports -> eligible i = true -> eligible j = true ->
+                    In id (imported_identifier i) -> In id (imported_identifier j) -> imp_path i = imp_path j) ->
+    keyed_conflict_free (resolved_imports_one_to_one imports).
+Proof. exact resolved_imports_one_to_one_conflict_free. Qed.
+Print Assumptions c03_resolved_imports_one_to_one_needs_distinct_identifiers.
+
+(* … and `import data.a.foo` + `import data.b.foo` (no aliases at all) is a witness: conflict free as written,
+   "object keys must be unique" in the 1:1 form.  The parser accepts such modules; only the compiler, which
+   regal never runs on linted files, refuses them. *)
+Theorem c03_resolved_imports_one_to_one_shadowing_refuted :
+  exists imports,
+    (forall i, In i imports -> imp_alias i = None) /\
+    keyed_conflict_free (resolved_imports imports) /\
+    ~ keyed_conflict_free (resolved_imports_one_to_one imports).
+Proof. exact resolved_imports_one_to_one_shadowing_refuted. Qed.
+Print Assumptions c03_resolved_imports_one_to_one_shadowing_refuted.
+
 (* ---- non-vacuity ------------------------------------------------------------------------------------------ *)
 
 (* the total-oracle premise is met by a three-file run that needs the aggregate phase, and Lint returns the
@@ -162,3 +206,24 @@ Example c03_nonvacuous_fail :
   fail (jv * jv) (fun _ c t _ => Some (c, t)) (fun _ c t _ => Some (c, t)) (fun _ _ => None)
        (JObj []) (JArr [rule; link]) = [(JStr [98%N], JStr [120%N])].
 Proof. split; reflexivity. Qed.
+
+(* three imports under the identifier foo (one by alias): one entry, the path of the first import *)
+Example c03_nonvacuous_resolved_imports :
+  let foo := [102; 111; 111]%N in
+  let imports := [ {| imp_path := [s_data; [97%N]; foo]; imp_alias := None |};
+                   {| imp_path := [s_input; foo]; imp_alias := None |};
+                   {| imp_path := [s_data; [98%N]]; imp_alias := Some (JStr foo) |} ] in
+  (forall i, In i imports -> imp_alias i <> Some (JBool false)) /\
+  resolved_imports imports = [(JStr foo, [s_data; [97%N]; foo]); (JStr foo, [s_data; [97%N]; foo]);
+                              (JStr foo, [s_data; [97%N]; foo])].
+Proof.
+  split; [|reflexivity].
+  intros i [<-|[<-|[<-|[]]]]; discriminate.
+Qed.
+
+(* f/1 and f/2 and a plain rule f: one declaration, the arity of the first definition *)
+Example c03_nonvacuous_function_decls :
+  let f := [102%N] in
+  function_decls [ {| rs_name := f; rs_args := Some 1 |}; {| rs_name := f; rs_args := Some 2 |};
+                   {| rs_name := f; rs_args := None |} ] = [(f, 1); (f, 1)].
+Proof. reflexivity. Qed.
